@@ -141,3 +141,41 @@ def hist(cases):
         m = "test" if field(c, "test") == "1" else "bench"
         h["mode"][m] = h["mode"].get(m, 0) + 1
     return h
+
+
+KINDS = "BCYI"
+
+
+def rand_counter_seq(rng, e, allow_as):
+    """A sequence of counter calls on the bencher: constants `cK` may come before `w` (with_inputs); after it any mix
+    of `iK` (input_counter), `aK` (count_inputs_as, u64 inputs only) and `cK`. Biased towards several calls on
+    few kinds so that replacements (constant after input counter of the same kind and vice versa) are frequent."""
+    kinds = rng.sample(KINDS, rng.choice([1, 2, 2, 3, 4]))
+    pre = ["c" + rng.choice(kinds) for _ in range(rng.choice([0, 0, 1, 2]))]
+    if e < 2:
+        return ",".join(pre + ["c" + rng.choice(kinds) for _ in range(rng.choice([0, 1, 2]))]) or "-"
+    post = []
+    for _ in range(rng.choice([1, 2, 3, 3, 4, 5, 6])):
+        r = rng.random()
+        post.append(("i" if r < 0.5 else "a" if (allow_as and r < 0.7) else "c" if r > 0.75 else "i") + rng.choice(kinds))
+    return ",".join(pre + ["w"] + post)
+
+
+def counter_seq_case(rng, tuned):
+    e = rng.choice([2, 3, 4, 5, 2, 4, 2, 3, 4, 5, 0, 1])
+    allow_as = e >= 2 and rng.random() < 0.35
+    sh = rng.choice(SHAPES)
+    if allow_as:
+        sh = "00" + sh[2:]
+    cq = rand_counter_seq(rng, e, allow_as)
+    it = " it=u" if allow_as else ""
+    u, sc, th = rng.randrange(2), rng.choice([1, 2, 3, 5]), rng.choice([1, 2, 3])
+    if tuned:
+        while True:
+            cost, prec = rng.choice([10, 20, 30, 45, 60, 101]), rng.choice([500, 1000, 2000])
+            if 2 <= tuned_rounds(cost, prec) <= 4:
+                break
+        return (f"e={e} sh={sh} cs=0000 cq={cq}{it} u={u} ss=- sc={sc} th={th} test=0 p=- cost={cost} prec={prec} FL=- "
+                f"G=- K=- F=- O=- I=-")
+    return (f"e={e} sh={sh} cs=0000 cq={cq}{it} u={u} ss={rng.choice([1, 2, 3, 5])} sc={sc} th={th} "
+            f"test={int(rng.random() < 0.25)} p=- G=- K=- F=- O=- I=-")
